@@ -690,6 +690,9 @@ class SE:
         c = self.ctx; e = recv[1]; h = st.heap
         if name == 'get':
             k = self.to_key(st, args[0]); dflt = args[1] if len(args) > 1 else self.none()
+            if dflt[0] == 'ref':
+                # no fork: the result is one (named) conditional value
+                return cont(st, R(self.name_term(st, If(h['dhas'][e][k], h['dval'][e][k], dflt[1]))))
             return self.branch(st, h['dhas'][e][k], lambda s: cont(s, R(s.heap['dval'][e][k])), lambda s: cont(s, dflt))
         if name == '__setitem__':
             k = self.to_key(st, args[0]); v = self.as_ref(st, args[1])
